@@ -100,16 +100,7 @@ bool ICValueHasher::isDuplicateOf(DatatypeValidator* const dv1, const XMLCh* con
     bool val1IsEmpty = (val1==0 || *val1==0);
     bool val2IsEmpty = (val2==0 || *val2==0);
 
-    if (val1IsEmpty && val2IsEmpty) {
-
-        if (dv1 == dv2) {
-            return true;
-        }
-
-        return false;
-    }
-
-    if (val1IsEmpty || val2IsEmpty) {
+    if (val1IsEmpty != val2IsEmpty) {
         return false;
     }
 
@@ -119,8 +110,12 @@ bool ICValueHasher::isDuplicateOf(DatatypeValidator* const dv1, const XMLCh* con
     {
         DatatypeValidator* tempVal2 = dv2;
         for(; tempVal2 != NULL && tempVal2 != tempVal1; tempVal2 = tempVal2->getBaseValidator()) ;
-        if (tempVal2) 
+        if (tempVal2) {
+            // two empty values of related types are the same value
+            if (val1IsEmpty)
+                return true;
             return ((tempVal2->compare(val1, val2, fMemoryManager)) == 0);
+        }
         tempVal1=tempVal1->getBaseValidator();
     }
 
